@@ -9,6 +9,7 @@ other argument; for the code it is the history correspondence (implementation-vs
 identity under poisoned outputs, interleaved calls, fresh processes).
 -/
 import MTProofs.Select
+import MT.Generated.MainCode
 
 namespace MTProps.C07
 open MT MTProofs
@@ -91,5 +92,10 @@ theorem adopted_indep_of_prior (prior prior' : State α) (r : Nat) :
     simp only
     have hL := (report_indep_of_prior assort ik K N nv maxIt nConv evalL userW d prior prior' r)
     rw [ih, hL.1, hL.2.2.2]
+
+/-- the report's seed is the generator's seed: the only statement of `multitensor_factorization` that
+assigns it (main.hpp, regenerated on every run) -/
+theorem seed_echo_documented :
+    Gen.reportSeedAssignments = ["results.seed=random_generator.seed;"] := by decide
 
 end MTProps.C07
